@@ -414,7 +414,48 @@ func runLBHealth(x *X) {
 	}
 
 	for i := 0; i < nSteps && !x.dead; i++ {
-		switch c.Pick([]int{8, 4, 3, 4, 2, 2, 2, 2, 2, 1, 1, 2, 2, 2}, "step") {
+		switch c.Pick([]int{8, 4, 3, 4, 2, 2, 2, 2, 2, 1, 1, 2, 2, 2, 2}, "step") {
+		case 14: // biased pattern: everybody is ejected at one instant; a request arrives a moment before
+			// the windows end (and is rightly told that nobody is available), the next ones a moment
+			// after: whatever the balancer remembers from the first look must not outlive the windows
+			if !passive {
+				continue
+			}
+			net.mu.Lock()
+			for _, b := range net.order {
+				b.mode = "s500"
+			}
+			net.mu.Unlock()
+			for j := 0; j < 3*threshold*nb && !x.dead; j++ {
+				cl := manyClients[(j*7+i)%len(manyClients)]
+				x.Do("req", func() { h.do(reqSpec{client: cl, path: "/eject-all"}) }, onErr)
+			}
+			net.mu.Lock()
+			for _, b := range net.order {
+				b.mode = "ok"
+			}
+			net.mu.Unlock()
+			if !stepObserve() {
+				break
+			}
+			before := time.Duration(1+c.Intn(400, "before-end-ms")) * time.Millisecond
+			after := time.Duration(1+c.Intn(300, "after-end-ms")) * time.Millisecond
+			x.Advance(W-before, onErr)
+			x.Do("req", func() { h.do(reqSpec{client: manyClients[i%len(manyClients)], path: "/just-before-the-end"}) }, onErr)
+			if !stepObserve() {
+				break
+			}
+			x.Advance(before+after, onErr)
+			for j := 0; j < 2 && !x.dead; j++ {
+				cl := manyClients[(i+j)%len(manyClients)]
+				x.Do("req", func() { h.do(reqSpec{client: cl, path: "/just-after-the-end"}) }, onErr)
+				if !stepObserve() {
+					break
+				}
+			}
+			x.Probe("requests-around-the-end-of-every-window")
+			steps = append(steps, fmt.Sprintf("around-window-end(-%v,+%v)", before, after))
+			continue
 		case 13: // impatient clients: they hang up before the backend has answered (or before the
 			// balancer has even looked at the request). No response, no failed response: that says
 			// nothing about the backend
